@@ -808,8 +808,21 @@ impl DebugSession {
     pub fn start(&mut self, shutdown: &AtomicBool) -> MosResult<()> {
         log::info!("DebugSession listening on port {}...", self.port);
         let debug_connection =
-            DebugConnection::tcp(&format!("127.0.0.1:{}", self.port), shutdown)
-                .unwrap_or_else(|e| panic!("Couldn't listen on port {}: {}", self.port, e));
+            match DebugConnection::tcp(&format!("127.0.0.1:{}", self.port), shutdown) {
+                Ok(c) => c,
+                Err(e) => {
+                    // Probably somebody else (another editor window?) is using the port. Debugging is unavailable
+                    // until it gets released, so have another go in a second.
+                    log::warn!("Couldn't listen on port {}: {}", self.port, e);
+                    for _ in 0..20 {
+                        if shutdown.load(Ordering::Relaxed) {
+                            break;
+                        }
+                        std::thread::sleep(std::time::Duration::from_millis(50));
+                    }
+                    return Ok(());
+                }
+            };
         let (debug_connection, _) = match debug_connection {
             Some(c) => c,
             None => {
